@@ -24,7 +24,18 @@ OP2CLS = {
     "redo": "redo",
     "features": "features",
     "prim_seg": "UpdateNodeSeg+inverse",
+    "ctrl": "TracksController",
+    "reload": "save+load",
 }
+
+
+def ctrl_steps(rec):
+    """How many history steps / refreshes a TracksController call must have produced, and
+    the state after each: one per top-level user action that succeeded inside the call
+    (update_node_attrs builds one group itself)."""
+    if rec.op.get("what") == "update_attrs":
+        return [dict((x, rec.post[x]) for x in STATE_SECTIONS)] if rec.out.ok else []
+    return [st for _, ok, st in rec.subs if ok]
 EDIT_OPS = {"add_node", "delete_node", "add_edge", "delete_edge", "swap", "update_attrs", "paint"}
 
 
@@ -323,7 +334,23 @@ class TimelineMonitor(Monitor):
         out = []
         now = {x: rec.post[x] for x in STATE_SECTIONS}
         s = rec.summary
-        if k in EDIT_OPS:
+        if k == "ctrl":
+            steps = ctrl_steps(rec)
+            nh = len(s["history"])
+            self.evals += 1
+            for st in steps:
+                self.word.append("E")
+                if self.tl.can_redo():
+                    self.eau = True
+                    self.undos_after_eau = 0
+                self.tl.edit({x: st[x] for x in STATE_SECTIONS})
+            self.count("controller-calls")
+            if nh != len(steps):
+                out.append(violation(
+                    "one-step-per-action", f"TracksController.{rec.op['what']} ran "
+                    f"{len(steps)} top-level actions but registered {nh} history steps",
+                    f"C02/one-step-per-action/TracksController/{rec.op['what']}"))
+        elif k in EDIT_OPS:
             nh = len(s["history"])
             if rec.out.ok:
                 self.word.append("E")
@@ -445,7 +472,17 @@ class IdMonitor(Monitor):
         out = []
         # which nodes / track ids does this call name?
         named = None
-        if k in EDIT_OPS:
+        if k == "reload":
+            self.U, self.R = [], []
+            self.count("reloads")
+        if k == "ctrl":
+            named = rec.named
+            for _ in ctrl_steps(rec):
+                if self.R:
+                    self.U.extend(self.R)
+                    self.R = []
+                self.U.append(named)
+        elif k in EDIT_OPS:
             named = rec.named
             if rec.out.ok:
                 if self.R:
@@ -467,6 +504,8 @@ class IdMonitor(Monitor):
                 f"after {rec.op} (roles {rec.roles}): " + "; ".join(m for _, m in p)[:500],
                 f"{cid}/partition/{OP2CLS[k]}/{sig(rec)}/{roles_tag(rec)}"))
         changed = rec.pre["nodes"] != rec.post["nodes"] or rec.pre["edges"] != rec.post["edges"]
+        if rec.out.ok and changed and k == "ctrl":
+            self.count("accepted-TracksController")
         if rec.out.ok and changed and k in EDIT_OPS:
             self.keys.add(f"{OP2CLS[k]}/{sig(rec)}/{roles_tag(rec)}/"
                           f"force={bool(rec.op.get('force'))}")
@@ -551,9 +590,13 @@ class LookupMonitor(Monitor):
     def _eval(self, sess):
         T = sess.tracks.segmentation.shape[0] if sess.tracks.segmentation is not None \
             else sess.cfg.T
-        probs, n = checks.lookups(sess.tracks, T)
-        self.evals += n
+        # the query battery runs after about half of the steps only, so that runs of edits
+        # happen without any observer query in between (a query may refresh internal caches)
+        q = getattr(self, "_force_queries", False) or self.rng.random() < 0.5
+        probs, n = checks.lookups(sess.tracks, T, queries=q)
+        self.evals += n + 1
         self.count("query-comparisons", n)
+        self.count("table-comparisons")
         return probs
 
     def start(self, sess):
@@ -820,6 +863,26 @@ class AtomicityMonitor(Monitor):
 
     def step(self, sess, rec):
         k = rec.op["op"]
+        if k == "ctrl" and not rec.out.ok and rec.out.exc_type != "HANG":
+            # an element of the call was refused: the state must be the one after the last
+            # element that succeeded (or the state before the call)
+            steps = ctrl_steps(rec)
+            base = steps[-1] if steps else {x: rec.pre[x] for x in STATE_SECTIONS}
+            now = {x: rec.post[x] for x in STATE_SECTIONS}
+            self.evals += 1
+            self.count("refusals")
+            self.count("refused-TracksController")
+            self.keys.add(f"TracksController.{rec.op['what']}/{rec.out.exc_type}/"
+                          f"after={len(steps)}")
+            if now != base:
+                return [violation(
+                    "refused-edit-changed-state",
+                    f"TracksController.{rec.op['what']} raised {rec.out.exc_type} "
+                    f"({rec.out.exc_msg}) after {len(steps)} completed actions; the state "
+                    f"differs from the one after the last completed action: "
+                    f"{diff(base, now)[:5]}",
+                    f"C11/changed/TracksController/{rec.op['what']}/{rec.out.exc_type}")]
+            return []
         if rec.out.ok or k not in EDIT_OPS:
             if rec.out.ok and k in EDIT_OPS and is_real_call(rec):
                 self.count("accepted")
@@ -869,7 +932,7 @@ class RefreshMonitor(Monitor):
     def step(self, sess, rec):
         if not is_real_call(rec):
             return []
-        if rec.out.exc_type == "HANG" or rec.op["op"] in ("prim_seg", "features"):
+        if rec.out.exc_type == "HANG" or rec.op["op"] in ("prim_seg", "features", "reload"):
             return []
         k = rec.op["op"]
         cls = OP2CLS[k]
@@ -877,6 +940,18 @@ class RefreshMonitor(Monitor):
         emits = s["emits"]
         self.evals += 1
         out = []
+        if k == "ctrl":
+            steps = ctrl_steps(rec)
+            for _ in steps:
+                self.nedit += 1
+                self.tl.edit(self.nedit)
+            self.count(f"controller-{rec.op['what']}")
+            if len(emits) != len(steps):
+                return [violation(
+                    "emission-count", f"TracksController.{rec.op['what']} completed "
+                    f"{len(steps)} top-level actions and emitted refresh {len(emits)}x",
+                    f"C20/count/TracksController/{rec.op['what']}/{len(steps)}/{len(emits)}")]
+            return []
         if k in ("undo", "redo"):
             possible = self.tl.undo() if k == "undo" else self.tl.redo()
             expect = 1 if possible else 0
@@ -935,6 +1010,7 @@ class FeatureSwitchMonitor(Monitor):
         # keys whose values are asserted (enabled with recompute or from construction)
         self.trusted = set(self.enabled) - {t.features.tracklet_key, t.features.lineage_key}
         self.frozen: dict[str, dict] = {}  # disabled key -> {element: (dict id, value)}
+        self.id_ok: dict[str, bool] = {}
         return self._registry(sess, "construction")
 
     def _registry(self, sess, where):
@@ -1074,6 +1150,28 @@ class FeatureSwitchMonitor(Monitor):
                                          f"{rec.out.exc_type}: {rec.out.exc_msg}",
                                          "C10/custom-attr-refused"))
         out += self._registry(sess, f"{k}")
+        # the id features, while enabled, stay right across every NEW edit (preservation
+        # form: judged only if they were right before the edit; undo / redo are not judged
+        # here because a bulk re-numbering makes older history entries refer to old ids)
+        if not out and k in EDIT_OPS and rec.out.ok:
+            tk, lk = t.features.tracklet_key, t.features.lineage_key
+            for key, fn in ((tk, checks.track_partition), (lk, checks.lineage_partition)):
+                if key in self.enabled:
+                    bad = fn(t)
+                    self.evals += 1
+                    was = self.id_ok.get(key, True)
+                    self.id_ok[key] = not bad
+                    if bad and was:
+                        out.append(violation(
+                            "values", f"{key} enabled; after {rec.op if k != 'paint' else 'paint'}"
+                            f": {bad[0][1][:300]}", f"C10/values/{key}/after-edit"))
+                        break
+        elif k in ("undo", "redo", "features"):
+            self.id_ok = {}
+            for key, fn in ((t.features.tracklet_key, checks.track_partition),
+                            (t.features.lineage_key, checks.lineage_partition)):
+                if key in self.enabled:
+                    self.id_ok[key] = not fn(t)
         # trusted keys stay right (this is where C08/C09 meet C10)
         if not out and rec.out.ok:
             out += self._values(sess, self.trusted & self.enabled, f"after {k}")
